@@ -3,6 +3,7 @@
 //! the replay crate calls natively.  `gen.rs` is produced by `gen_subjects.py`.
 #![allow(unused, clippy::all)]
 pub mod env;
+pub mod idioms;
 use cachelito::cache;
 use cachelito_async::cache_async;
 include!("gen.rs");
